@@ -132,6 +132,9 @@ class Repo:
                     base = base[: len(base) - (st.level - 1)]
                     mod = ".".join(base + ([mod] if mod else []))
                 for a in st.names:
+                    if a.name == "*":
+                        m.bindings.setdefault("*", ("stars", []))[1].append(mod)
+                        continue
                     m.bindings[a.asname or a.name] = ("from", mod, a.name)
             elif isinstance(st, ast.Assign):
                 for t in st.targets:
